@@ -4,6 +4,8 @@ import (
 	"fmt"
 	"os"
 	"path/filepath"
+	"regexp"
+	"strconv"
 	"strings"
 	"testing"
 	"time"
@@ -20,6 +22,8 @@ import (
 // C19 — exit status and output streams classify every run correctly (real CLI only).
 
 const c19Marker = "দেখাও \"SCRIPT-RAN\";\n"
+
+var diagLineRe = regexp.MustCompile(`\[line (\d+)\]`)
 
 func (c *Ctx) c19Run(args []string, stdin string) run.CLIResult {
 	c.Ev.CLICross++
@@ -58,6 +62,13 @@ func (c *Ctx) c19Script(s *Sub, sub, src, stdin string, labels ...string) {
 		}
 		if strings.TrimSpace(cr.Stderr) == "" {
 			fail("stderr-rejected", "a rejected text must produce a diagnostic on stderr", "")
+		}
+		// the line a diagnostic names lies within the text as the file holds it (the end of input is on line 1 + the
+		// number of line breaks)
+		if m := diagLineRe.FindStringSubmatch(cr.Stderr); m != nil {
+			if n, _ := strconv.Atoi(m[1]); n < 1 || n > 1+strings.Count(src, "\n") {
+				fail("diagnostic-line-outside-text", fmt.Sprintf("the first diagnostic names line %d, the text has %d line breaks", n, strings.Count(src, "\n")), "")
+			}
 		}
 		return
 	}
